@@ -5,6 +5,7 @@ import (
 	"go/ast"
 	"go/token"
 	"go/types"
+	"sort"
 	"strings"
 
 	"golang.org/x/tools/go/cfg"
@@ -931,6 +932,55 @@ func rh5Cleanup(w *World) {
 	})
 	if !found {
 		w.undecided("cleanup-under-lock|missing", ev.Decl.Pos(), "no call of the cleanup parameter found in EvictWithCleanup")
+	}
+	// cleanup-always-runs: the cleanup callback is how the caller publishes the new input; it must
+	// run on every path on which it is not known to be nil — also when none of the given keys is
+	// memoized (two edits back to back, an edit before the first Run). Must-dataflow: fact "settled"
+	// after the call and on the edges where `cleanup == nil` is implied.
+	{
+		cd := &Dataflow{G: g, Must: true, Init: Facts{}}
+		cd.Transfer = func(n ast.Node, in Facts) Facts {
+			out := in
+			if _, isGo := n.(*ast.GoStmt); isGo {
+				return out
+			}
+			inspectPost(n, func(x ast.Node) {
+				if c, ok := x.(*ast.CallExpr); ok {
+					if id, ok := ast.Unparen(c.Fun).(*ast.Ident); ok && id.Name == "cleanup" {
+						out = out.with("settled")
+					}
+				}
+			})
+			return out
+		}
+		cd.Branch = func(leaf ast.Expr, truth bool, s Facts) Facts {
+			if be, ok := ast.Unparen(leaf).(*ast.BinaryExpr); ok && isNilIdent(info, be.Y) {
+				if id, ok := ast.Unparen(be.X).(*ast.Ident); ok && id.Name == "cleanup" {
+					if (be.Op == token.EQL) == truth {
+						return s.with("settled")
+					}
+				}
+			}
+			return s
+		}
+		cd.Run()
+		var skipped []string
+		nExit := 0
+		for _, e := range cd.Exits(info, ev.Decl.Body.End()) {
+			if e.Kind == "panic" {
+				continue
+			}
+			nExit++
+			if !e.State["settled"] {
+				skipped = append(skipped, w.pos(e.Pos))
+			}
+		}
+		if len(skipped) == 0 {
+			w.ok("cleanup-always-runs", ev.Decl.Pos(), fmt.Sprintf("on each of the %d exits of EvictWithCleanup the cleanup callback has run or is known to be nil", nExit))
+		} else {
+			sort.Strings(skipped)
+			w.violation("cleanup-always-runs", ev.Decl.Pos(), "EvictWithCleanup can return (at "+strings.Join(skipped, ", ")+") without having called a non-nil cleanup: when none of the given keys is memoized (two edits without a Run in between, an edit before the first Run) the new input is never published, and the next Run memoizes a value computed from the old one")
+		}
 	}
 	// lock-first: what is evicted is decided under the exclusive lock. Every look at the task map
 	// (getTask, e.tasks.*) and at the dependency graph (task.callers / task.deps) in
